@@ -14,7 +14,7 @@
 From Coq Require Import ZArith List Bool Lia.
 From Gen Require Import Constants OsImage.
 From Model Require Import Tree Bits Word Instr Sim Load.
-From Proofs Require Import SimStep OsProofs OsContracts.
+From Proofs Require Import SimStep OsProofs OsPutsp OsContracts.
 Import ListNotations.
 Open Scope Z_scope.
 
@@ -53,6 +53,22 @@ Theorem C11_puts : forall s sp cs q buf sc t,
              s_devs s' = kdevs q (buf ++ low8 cs) /\ same_user_view s s'.
 Proof. exact contract_puts. Qed.
 Print Assumptions C11_puts.
+
+(* PUTSP: for every packed string at R0 — full words ws (both bytes non-zero) followed by a word z
+   whose low byte is zero (even length) or whose high byte is zero (odd length) — the display
+   receives low byte then high byte of each full word, then z's low byte if non-zero; by induction
+   on ws, the 8-round high-byte extraction by induction on the rounds plus a complete sweep over
+   all 65536 words.  The instruction count depends on the data, hence existential. *)
+Theorem C11_putsp : forall s sp ws z q buf sc t,
+  user_ready s sp q buf -> OS_END + 9 <= sp <= USER_START ->
+  mget (s_mem s) (s_pc s) = new_init 61476 ->
+  full_ok ws -> term_ok z -> pstr_at (s_mem s) (w_data (rget (s_regs s) 0)) ws z ->
+  USER_START <= w_data (rget (s_regs s) 0) -> w_data (rget (s_regs s) 0) + Z.of_nat (length ws) < IO_START ->
+  ds_always_free sc ->
+  exists n s', run sc t n s = (s', OOk) /\ s_pc s' = wrap16 (s_pc s + 1) /\ s_regs s' = s_regs s /\
+               s_devs s' = kdevs q (buf ++ packed_out ws z) /\ same_user_view s s'.
+Proof. exact contract_putsp. Qed.
+Print Assumptions C11_putsp.
 
 (* IN: prompt "Input character: ", the next byte is consumed, echoed and returned in R0 *)
 Theorem C11_in : forall s sp ch q buf sc t,
@@ -99,3 +115,7 @@ Example C11_ex_out :
   s_devs (fst (run (fun _ => mkEnv false false []) 0 9 s)) = kdevs [] [65] /\
   s_pc (fst (run (fun _ => mkEnv false false []) 0 9 s)) = 12289.
 Proof. vm_compute. split; reflexivity. Qed.
+
+Example C11_ex_packed : packed_out [16706; 17220] 69 = [66; 65; 68; 67; 69] /\ packed_out [16706] 0 = [66; 65] /\
+                        full_ok [16706; 17220] /\ term_ok 69 /\ term_ok 0.
+Proof. unfold full_ok, term_ok. repeat split; try (vm_compute; congruence); try lia; repeat constructor; try lia; vm_compute; try congruence; auto. Qed.
